@@ -288,23 +288,28 @@ def case_remote(ctx, inp):
         cls = type(exc)
         want = f"boom-{kid}"
     got = None
-    try:
+    # twice: the second time `remote_exception` finds the wrapper type it built the first time in its table
+    for attempt in (1, 2):
+        got = None
         try:
-            raise exc
-        except BaseException as e:
-            packed = M.pack_exception(e, M._dumps)
-        exc2, tb = M._loads(packed)
-        try:
-            M.reraise(exc2, tb)
-        except BaseException as e3:
-            if isinstance(e3, (KeyboardInterrupt, SystemExit)) or type(e3).__name__ == "CaseTimeout":
-                raise
-            got = e3
-    except Exception as e4:
-        ctx.fail("multiprocessing: transporting a task exception to the parent raised instead of yielding it "
-                 f"({type(e4).__name__}: {str(e4)[:80]})", observed=f"{type(e4).__name__}: {str(e4)[:100]}",
-                 expected=f"{cls.__name__}: {want}")
-        return
+            try:
+                raise exc
+            except BaseException as e:
+                packed = M.pack_exception(e, M._dumps)
+            exc2, tb = M._loads(packed)
+            try:
+                M.reraise(exc2, tb)
+            except BaseException as e3:
+                if isinstance(e3, (KeyboardInterrupt, SystemExit)) or type(e3).__name__ == "CaseTimeout":
+                    raise
+                got = e3
+        except Exception as e4:
+            ctx.fail("multiprocessing: transporting a task exception to the parent raised instead of yielding it "
+                     f"({type(e4).__name__}: {str(e4)[:80]})" + (" [second exception of this type]" if attempt == 2 else ""),
+                     observed=f"{type(e4).__name__}: {str(e4)[:100]}", expected=f"{cls.__name__}: {want}")
+            return
+        if attempt == 1 and (got is None or not isinstance(got, cls) or want not in str(got)):
+            break
     if got is None:
         ctx.fail("multiprocessing: raise_exception did not raise", observed="no exception")
         return
@@ -350,7 +355,7 @@ def generate(ctx):
     for _ in range(ctx.n(40, 400)):
         # graphs that lack a dependency: start_state_from_dask raises, the `finally:` still calls finish(failed=True)
         yield "trace", U.gen_trace_input(rng, max_n=rng.choice([3, 6]), missing_p=1.0)
-    for _ in range(ctx.n(1500, 8000)):
+    for _ in range(ctx.n(1200, 8000)):
         inp = _with_fail(rng, rng.choice([4, 7, 10, 14, 18]))
         if rng.random() < 0.2:
             inp["rerun"] = True
